@@ -17,6 +17,7 @@ PLAN = [
     ("C09", {"C09-a": "u vectors", "C09-b": "v = Σ x(m²+p²) − uᵀL⁻¹u", "C09-c": "L⁻¹ is the inverse of that L"}),
     ("C11", {"C11-a": "the returned ratio (u_trop/u)^(D/2)(v_trop/v)^dod = jacobian/normalisation on the same u, v",
              "C11-d": "bookkeeping in every iteration, last edge included"}),
+    ("C20", {"C20-a": "for T = f64 the scalar operations these formulas are written in (powf of the rescaling, sqrt, ln, exp, …) are std's"}),
 ]
 
 
